@@ -56,4 +56,45 @@ PROPS["C02"] = {
     "level_note": "Trusted: Lean kernel, xorSpec, correspondence harness; LittleEndian and pbytes pool by contract; offsets below 2^63.",
 }
 
+PROPS["C03"] = {
+    "lean": ["WsVerif.Props.C03", "WsVerif.Bridge.C03"],
+    "rule": "Exhaustive Fin x Rsv(0..7) x OpCode(0..15) x Masked x 10 length classes x all 16 endpoint states through ws.CheckHeader "
+            "(102,400 headers); all 65,536 status codes through the StatusCode predicates and CheckCloseFrameData with 11 reasons "
+            "(empty, ASCII, 2/3/4-byte, overlong, surrogate, truncated, > U+10FFFF, 0xFF; quick samples 1/7 of the non-boundary codes); "
+            "NewCloseFrameBody/ParseCloseFrameData(Unsafe) for reason lengths 0..130 with multibyte code points at the crop point.",
+    "exhaustive_families": ["chk", "pred", "spred", "cls (thorough)"],
+    "trusted_base": [
+        "Spec/Check.lean: the eight framing rules of RFC 6455 §5 and the close-code ranges of §7.4, arithmetic only",
+        "Spec/Utf8.lean (Table 3-7) stands for unicode/utf8.ValidString; cross-checked against Go's utf8.ValidString on every cls case",
+        "Model/Check.lean is bridged lemma-by-lemma (Bridge.C03) to the wsfacts translation of CheckHeader, CheckCloseFrameData, "
+        "State.*, OpCode.*, StatusCode.*, Rsv, RsvBits regenerated from the source on every run",
+    ],
+    "assumptions": COMMON_ASSUME + ["OpCode < 16, State < 256 (their Go types are 4-bit-on-the-wire / uint8)",
+                                    "codes 1012-1014 and >= 5000 are left open, as in the property"],
+    "level_text": "Kernel-checked: CheckHeader accepts iff none of the eight RFC rules is broken and any error it reports names a broken rule "
+                  "(exhaustive kernel evaluation of the cascade over the 2^8 x 16 abstract fact space, lifted to all headers/states); "
+                  "CheckCloseFrameData accepts 1000-1003, 1007-1011, 3000-4999 with valid UTF-8 and refuses every other code < 5000 except "
+                  "1012-1014 and every invalid reason; close bodies <= 125 bytes and parse back. The model is provably equal (Bridge.C03) to the "
+                  "mechanical translation of the current Go source, and ~360k differential cases (exhaustive header x state grid) agree.",
+    "level_note": "Trusted: Lean kernel, Spec/Check.lean, wsfacts translator (cross-checked by exhaustive correspondence); utf8.ValidString by contract.",
+}
+
+PROPS["C07"] = {
+    "lean": ["WsVerif.Props.C07", "WsVerif.Bridge.C07"],
+    "rule": "UTF8Reader: all byte strings of length <= 2, 3-byte strings over lead C0..FF x 70..CF x 78..C7 (all in thorough, 1/16 in quick), "
+            "every lead byte E0..FF x boundary continuation values for 4-byte forms, long strings assembled from valid / overlong / surrogate / "
+            "truncated pieces; each under transport chunkings 0..5, six caller buffer schedules, EOF / failing / data-with-EOF transports. "
+            "Every string is also judged by Go's utf8.Valid and by Lean core's String.validateUTF8.",
+    "exhaustive_families": ["u8 (all strings of length <= 2)"],
+    "trusted_base": [
+        "Spec/Utf8.lean: Unicode Table 3-7 as a 9-position automaton; cross-checked at run time against Go's utf8.Valid and Lean core's validator",
+        "Model/Utf8.lean mirrors wsutil/utf8.go; its table is proved equal (Bridge.C07) to the table regenerated from the source",
+    ],
+    "assumptions": COMMON_ASSUME + ["codep (decoded code point) is unobservable and not modelled"],
+    "level_text": "Kernel-checked: all 9 x 256 transitions of the Hoehrmann table equal the Table 3-7 transition (decide over the regenerated table), "
+                  "lifted by induction to every byte string, every split point and every chunking of the validating reader; REJECT sticky. "
+                  "PARTIAL until the message-reader wiring theorems (text_ok_iff) land with C04: the wiring is currently covered by correspondence only.",
+    "level_note": "Trusted: Lean kernel, Table 3-7 transcription, harness. Reader wiring (fragments/control frames) proved in a later step.",
+}
+
 NOT_APPLICABLE = {}
